@@ -17,7 +17,7 @@ FUNCTIONS = ["_StereoMixin.__eq__", "_StereoMixin.__hash__", "_StereoMixin.inver
              "_StereoMixin._inverted_atoms", "PERMUTATION_GROUP/inversion tables of the six classes"]
 BOUNDS = {"quick": "identifier values unbounded (symbolic ints, pairwise distinct); all orderings of all six classes (24/24/120/720/48/48), "
                    "all parity pairs; placeholder patterns: none, one None (each ligand position class), two None (first pattern); "
-                   "hash: ids from {-7,0,1,2,5,2^40,..}, identifier 0 on every position relative to the placeholders",
+                   "hash: ids from {-7,0,1,2,5,2^40,..}, identifier 0 on every position relative to the placeholders; invert() on a descriptor that has been compared / hashed before; hash: identifier 0 on every position relative to the placeholders (equal-parity pairs)",
           "thorough": "as quick plus every one- and two-placeholder pattern for every class"}
 OUTSIDE = "more than two placeholders; parities outside the class' declared domain (e.g. Tetrahedral with parity 0)"
 ASSUMPTIONS = ["idealised figures of vp/lib/oracle.py encode the position semantics stated in the class docstrings and used by xyz2graph.py",
@@ -45,7 +45,7 @@ def none_patterns(kind, tier):
     if tier == "quick":
         pats += ([] if kind == "Oct" else ones[-1:] + twos[:1])
     elif kind == "Oct":
-        pats += ones + twos[:3]
+        pats += ones[:1] + ones[-1:] + twos[:1]      # 36 shards of 720 orderings per pattern: three patterns keep the thorough tier near 15 min
     else:
         pats += ones + twos
     out = []
@@ -378,6 +378,7 @@ def plan(tier, seed):
     else:
         pre.append("kind != 3 or (pat < 4 and k % 3 == 0)")
         pre.append("idv in (1, 0, 3) or (p == q and pat > 0 and kind != 3)")
+        pre.append("idv == 1 or k % 2 == 0 or kind < 2")
         pre.append("kind != 2 or pat < 8")
         pre.append("pat < (11, 11, 16, 22, 11, 11)[kind]")
     units.append(Sel(name="hash", func="vp.props.C04:hash_body", params=params, pre=pre, shard_by=["kind"], timeout=1500,
